@@ -27,7 +27,7 @@ theorem c05_no_upstream_direct {rc : RouteCfg} (h : rc.base = .none) (host : Byt
     direct-domains match ⇒ direct; else localhost ∧ mode = direct ⇒ direct; else what `f` says -/
 theorem c05_selection_table {rc : RouteCfg} {f : ProxyFn} (hb : baseFn rc.base = some f) (host : Bytes) :
     selectProxy rc host =
-      if (match rc.directDomains with | some rules => domMatch rules host | none => false) then .ok none
+      if (match rc.directDomains with | some rules => directMatch rules host | none => false) then .ok none
       else if rc.localhostDirect && isLocalhostNames rc.localhostNames host then .ok none
       else f host := by
   unfold selectProxy proxyFunc
@@ -41,13 +41,13 @@ theorem c05_selection_table {rc : RouteCfg} {f : ProxyFn} (hb : baseFn rc.base =
       cases hh : isLocalhostNames rc.localhostNames host <;> simp [hh]
   | some rules =>
     cases hl : rc.localhostDirect with
-    | false => cases hm : domMatch rules host <;> simp [hm]
+    | false => cases hm : directMatch rules host <;> simp [hm]
     | true =>
-      cases hh : isLocalhostNames rc.localhostNames host <;> cases hm : domMatch rules host <;> simp [hh, hm]
+      cases hh : isLocalhostNames rc.localhostNames host <;> cases hm : directMatch rules host <;> simp [hh, hm]
 
 /-- direct-domains match ⇒ direct -/
-theorem c05_direct_domains_direct {rc : RouteCfg} {rules : List DomRule} (hd : rc.directDomains = some rules)
-    {host : Bytes} (hm : domMatch rules host = true) : selectProxy rc host = .ok none := by
+theorem c05_direct_domains_direct {rc : RouteCfg} {rules : List C17.Rule} (hd : rc.directDomains = some rules)
+    {host : Bytes} (hm : directMatch rules host = true) : selectProxy rc host = .ok none := by
   cases hb : baseFn rc.base with
   | none =>
     have : rc.base = .none := by
@@ -69,7 +69,7 @@ theorem c05_localhost_direct {rc : RouteCfg} (hl : rc.localhostDirect = true) {h
 
 /-- hosts caught by neither wrapper -/
 def NotWrapped (rc : RouteCfg) (host : Bytes) : Prop :=
-  (∀ rules, rc.directDomains = some rules → domMatch rules host = false) ∧
+  (∀ rules, rc.directDomains = some rules → directMatch rules host = false) ∧
   (rc.localhostDirect = true → isLocalhostNames rc.localhostNames host = false)
 
 theorem c05_not_wrapped_base {rc : RouteCfg} {f : ProxyFn} (hb : baseFn rc.base = some f) {host : Bytes}
@@ -100,14 +100,14 @@ theorem c05_pac_proxy {rc : RouteCfg} {p : PacScript} (hb : rc.base = .pac p) {h
 
 def exRc : RouteCfg :=
   { base := .static { scheme := bs "http", host := bs "proxy.test:3128" },
-    directDomains := some [⟨.suffix (bs ".direct.test"), false⟩], localhostDirect := true, localhostNames := [bs "localhost"] }
+    directDomains := some [⟨bs "\\.direct\\.test$", false⟩], localhostDirect := true, localhostNames := [bs "localhost"] }
 
 example : NotWrapped exRc (bs "origin.test") ∧ selectProxy exRc (bs "a.direct.test") = .ok none ∧
     selectProxy exRc (bs "LOCALHOST") = .ok none ∧ selectProxy exRc (bs "127.0.0.1") = .ok none ∧
     selectProxy exRc (bs "origin.test") = .ok (some { scheme := bs "http", host := bs "proxy.test:3128" }) := by
   refine ⟨⟨?_, ?_⟩, ?_, ?_, ?_, ?_⟩
   · intro rules h
-    have : rules = [⟨.suffix (bs ".direct.test"), false⟩] := by
+    have : rules = [⟨bs "\\.direct\\.test$", false⟩] := by
       simp only [exRc, Option.some.injEq] at h; exact h.symm
     subst this
     with_unfolding_all decide
@@ -310,7 +310,7 @@ theorem c05_selected_scheme_supported {rc : RouteCfg} (hv : rc.base.validated = 
       cases hsel
     | some f =>
       rw [c05_selection_table hb] at hsel
-      by_cases h1 : (match rc.directDomains with | some rules => domMatch rules host | none => false) = true
+      by_cases h1 : (match rc.directDomains with | some rules => directMatch rules host | none => false) = true
       · rw [if_pos h1] at hsel; cases hsel
       · rw [if_neg h1] at hsel
         by_cases h2 : (rc.localhostDirect && isLocalhostNames rc.localhostNames host) = true
@@ -507,7 +507,7 @@ theorem c05_pac_for_that_url {c : InstCfg} {s : UrlScript} (hs : c.script = some
 /-- the wrappers come first: a direct-domains match, or localhost in `direct` mode, goes direct
     whatever the script would say for the URL (the script is not even consulted) -/
 theorem c05_wrappers_before_script (c : InstCfg) (q : RouteReq)
-    (h : (∃ rules, c.rc.directDomains = some rules ∧ domMatch rules q.host = true) ∨
+    (h : (∃ rules, c.rc.directDomains = some rules ∧ directMatch rules q.host = true) ∨
          (c.rc.localhostDirect = true ∧ isLocalhostNames c.rc.localhostNames q.host = true)) :
     selectProxy (c.at q) q.host = .ok none := by
   rcases h with ⟨rules, hd, hm⟩ | ⟨hl, hh⟩
@@ -855,6 +855,134 @@ example : dialOk (dialAttempts { attempts := 0 } (bs "a:1") [false, true]) = fal
     (dialAttempts { attempts := 0 } (bs "a:1") [false, true]).length = 1 ∧
     dialOk (dialAttempts { attempts := 3 } (bs "a:1") [false, false, true]) = true ∧
     dialOk (dialAttempts { attempts := 3 } (bs "a:1") [false, false, false, true]) = false := by
+  with_unfolding_all decide
+
+/-! ## J. direct-domains is a list of Go regular expressions: every rule is taken on its own
+
+`directMatch rules host` is C17's model of the matcher `NewRegexpMatcherFromList` builds from the
+`--direct-domains` values (lexer, operator stack and flag scoping of Go's `regexp/syntax` applied to
+ONE rule at a time).  `r.search host` is rule `r` as the only regular expression in sight. -/
+
+/-- the direct-domains decision for a host: some include rule matches it ON ITS OWN and no exclude
+    rule matches it on its own — for every list a matcher can be built from, whatever inline flags,
+    groups, anchors or alternations its rules contain; neither the position of a rule in the list nor
+    what stands next to it enters the right-hand side -/
+theorem c05_direct_domains_per_rule {rules : List C17.Rule} {m : C17.Matcher} (h : C17.fromList rules = .ok m)
+    (host : Bytes) :
+    directMatch rules host = true ↔
+      (∃ r ∈ C17.includes rules, r.search host = true) ∧ ¬ ∃ r ∈ C17.excludes rules, r.search host = true := by
+  rw [directMatch_of_fromList h]
+  exact C17.specMatch_iff rules host
+
+/-- … stated over the list alone: every list of valid regular expressions with an include rule (what
+    `--direct-domains` accepts) has a matcher, and its verdict is the per-rule one -/
+theorem c05_direct_domains_valid_list {rules : List C17.Rule} (hv : C17.Valid rules) (hne : C17.includes rules ≠ [])
+    (host : Bytes) :
+    directMatch rules host = true ↔
+      (∃ r ∈ C17.includes rules, r.search host = true) ∧ ¬ ∃ r ∈ C17.excludes rules, r.search host = true := by
+  obtain ⟨m, h⟩ := C17.fromList_ok_of_valid hv hne
+  exact c05_direct_domains_per_rule h host
+
+/-- "on its own" is what the code itself answers for the rule as a one-rule list -/
+theorem c05_direct_domains_single_rule {r : C17.Rule} (hv : C17.validSrc r.src = true) (hi : r.exclude = false)
+    (host : Bytes) : directMatch [r] host = r.search host := by
+  have hne : C17.includes [r] ≠ [] := by simp [C17.includes, hi]
+  cases hf : C17.fromList [r] with
+  | ok m =>
+    rw [directMatch_of_fromList hf]
+    simp [C17.specMatch, C17.includes, C17.excludes, hi]
+  | noInclude => exact absurd ((C17.fromList_noInclude _).mp hf) hne
+  | panic e =>
+    exfalso
+    unfold C17.fromList C17.newMatcher at hf
+    simp only [C17.includes, C17.excludes, hi, List.filter_cons, Bool.not_false, if_true, List.filter_nil,
+      List.map_cons, List.map_nil, List.isEmpty_cons, Bool.false_eq_true, if_false, C17.compileAll] at hf
+    unfold C17.validSrc at hv
+    cases hc : C17.compile r.src with
+    | error e' => rw [hc] at hv; cases hv
+    | ok x => simp [hc] at hf
+
+/-- the rules form a set: two lists with the same rules — in any order, with any repetitions — give the
+    same routing decision for every host, in every configuration -/
+theorem c05_direct_domains_order_irrelevant (rc : RouteCfg) {l l' : List C17.Rule} {m m' : C17.Matcher}
+    (h : C17.fromList l = .ok m) (h' : C17.fromList l' = .ok m') (hs : ∀ r, r ∈ l ↔ r ∈ l') (host : Bytes) :
+    selectProxy { rc with directDomains := some l } host = selectProxy { rc with directDomains := some l' } host := by
+  apply selectProxy_congr_direct
+  rw [directMatch_of_fromList h, directMatch_of_fromList h', specMatch_of_mem_iff hs]
+
+/-- … in particular every permutation of a list that has a matcher has one, with the same decisions -/
+theorem c05_direct_domains_perm (rc : RouteCfg) {l l' : List C17.Rule} {m : C17.Matcher}
+    (h : C17.fromList l = .ok m) (hp : l.Perm l') (host : Bytes) :
+    selectProxy { rc with directDomains := some l } host = selectProxy { rc with directDomains := some l' } host := by
+  obtain ⟨m', h'⟩ := C17.fromList_ok_perm hp h
+  exact c05_direct_domains_order_irrelevant rc h h' (fun r => hp.mem_iff) host
+
+/-- composed with the routing of a request (plain, CONNECT or read inside an intercepted tunnel; static
+    upstream, PAC script or custom function): a host some include rule matches on its own and no
+    exclude rule does is contacted directly — the script is not consulted, the upstream not used;
+    every other host is routed exactly as if `--direct-domains` had not been given -/
+theorem c05_route_direct_domains {c : InstCfg} {rules : List C17.Rule} {m : C17.Matcher}
+    (hd : c.rc.directDomains = some rules) (h : C17.fromList rules = .ok m) (q : RouteReq) :
+    (((∃ r ∈ C17.includes rules, r.search q.host = true) ∧ ¬ ∃ r ∈ C17.excludes rules, r.search q.host = true) →
+        route c q = .ok (.direct (if q.connect then q.urlHost else canonicalAddr q.scheme q.urlHost))) ∧
+    (¬ ((∃ r ∈ C17.includes rules, r.search q.host = true) ∧ ¬ ∃ r ∈ C17.excludes rules, r.search q.host = true) →
+        route c q = route { c with rc := { c.rc with directDomains := none } } q) := by
+  have hd' : (c.at q).directDomains = some rules := by rw [at_directDomains]; exact hd
+  constructor
+  · intro hs
+    have hm := (c05_direct_domains_per_rule h q.host).mpr hs
+    have hsel : selectProxy (c.at q) (hostname q.urlHost) = .ok none := c05_direct_domains_direct hd' hm
+    unfold route
+    cases hq : q.connect
+    · simp only [Bool.false_eq_true, if_false]; unfold routeRequest; rw [hsel]
+    · simp only [if_true]; unfold routeConnect; rw [hsel]
+  · intro hs
+    have hm : directMatch rules q.host = false := by
+      cases hx : directMatch rules q.host with
+      | false => rfl
+      | true => exact absurd ((c05_direct_domains_per_rule h q.host).mp hx) hs
+    have hsel : selectProxy (c.at q) (hostname q.urlHost) =
+        selectProxy { c.at q with directDomains := none } (hostname q.urlHost) := selectProxy_direct_no_match hd' hm
+    unfold route routeConnect routeRequest
+    rw [at_without_direct, hsel]
+
+/-- the list `(?i)^wiki$`, `^files\.corp\.test$` -/
+def flagList : List C17.Rule := [⟨bs "(?i)^wiki$", false⟩, ⟨bs "^files\\.corp\\.test$", false⟩]
+/-- the list `.*`, `-(?i)^secure\.`, `-^partner\.test$` -/
+def flagExclList : List C17.Rule := [⟨bs ".*", false⟩, ⟨bs "(?i)^secure\\.", true⟩, ⟨bs "^partner\\.test$", true⟩]
+
+def flagCfg (l : List C17.Rule) : RouteCfg :=
+  { base := .static { scheme := bs "http", host := bs "proxy.test:3128" }, directDomains := some l }
+
+-- hypotheses of the theorems above hold of lists with an unscoped flag group in front of another rule
+example : C17.Valid flagList ∧ C17.includes flagList ≠ [] ∧ C17.Valid flagExclList ∧ C17.includes flagExclList ≠ [] := by
+  with_unfolding_all decide
+-- … hence a matcher exists for them and for their permutations (premise of `_per_rule`, `_order_irrelevant`, `c05_route_direct_domains`)
+example : (∃ m, C17.fromList flagList = .ok m) ∧ (∃ m, C17.fromList flagList.reverse = .ok m) ∧ (∃ m, C17.fromList flagExclList = .ok m) :=
+  ⟨C17.fromList_ok_of_valid (by with_unfolding_all decide) (by with_unfolding_all decide),
+   C17.fromList_ok_of_valid (by with_unfolding_all decide) (by with_unfolding_all decide),
+   C17.fromList_ok_of_valid (by with_unfolding_all decide) (by with_unfolding_all decide)⟩
+-- a CONNECT to WIKI:443 under that list and a static upstream is contacted directly
+example : route { rc := flagCfg flagList } { connect := true, urlHost := bs "WIKI:443" } = .ok (.direct (bs "WIKI:443")) ∧
+    route { rc := flagCfg flagList } { connect := true, urlHost := bs "FILES.corp.test:443" } = .ok (.viaProxy .http (bs "proxy.test:3128")) := by
+  with_unfolding_all decide
+-- WIKI and files.corp.test go direct, FILES.corp.test goes to the upstream (the flag of the first rule is its own)
+example : selectProxy (flagCfg flagList) (bs "WIKI") = .ok none ∧ selectProxy (flagCfg flagList) (bs "files.corp.test") = .ok none ∧
+    selectProxy (flagCfg flagList) (bs "FILES.corp.test") = .ok (some { scheme := bs "http", host := bs "proxy.test:3128" }) := by
+  with_unfolding_all decide
+
+/-- why the rules must not be joined into one expression per list: with the unscoped `(?i)` of the first
+    rule in force for the rule joined after it, `FILES.corp.test` would be contacted directly instead of
+    through the upstream proxy, and — the leak going the other way in an exclude list — `PARTNER.test`,
+    which `.*` sends direct and no exclude rule matches, would be handed to the upstream; on hosts in
+    the letter case the rules are written in, the two constructions agree -/
+theorem c05_joined_rules_witness :
+    selectProxy (flagCfg flagList) (bs "FILES.corp.test") = .ok (some { scheme := bs "http", host := bs "proxy.test:3128" }) ∧
+    selectProxyJoined (flagCfg flagList) (bs "FILES.corp.test") = .ok none ∧
+    selectProxy (flagCfg flagExclList) (bs "PARTNER.test") = .ok none ∧
+    selectProxyJoined (flagCfg flagExclList) (bs "PARTNER.test") = .ok (some { scheme := bs "http", host := bs "proxy.test:3128" }) ∧
+    selectProxyJoined (flagCfg flagList) (bs "files.corp.test") = selectProxy (flagCfg flagList) (bs "files.corp.test") ∧
+    selectProxyJoined (flagCfg flagExclList) (bs "partner.test") = selectProxy (flagCfg flagExclList) (bs "partner.test") := by
   with_unfolding_all decide
 
 end C05
